@@ -20,7 +20,7 @@ use std::sync::{Arc, Barrier};
 
 pub const ID: &str = "C13";
 
-pub const RULE: &str = "cases = (grammar, pool of 3 inputs, history). Grammars: C01/C02/C08/C11 classes (recovery, validate emitters, memoized, recursive, internal Box/Rc/Arc/Either/boxed wrappers) built by the dynamic builder, plus a hand-written catalogue of statically typed parsers (text::*, regex, pratt, memoized, recovery, labelled). Pool: 3 of 6 generated inputs, chosen to mix accepted, rejected and recovered ones. A history is a list of steps (handle, input, parse|check); handles are derived ONCE from one parser value and kept for the whole history: the original, p.clone(), &p, Box::new, Rc::new, Arc::new, .boxed(), .boxed().boxed(), Either::Left, Either::Right, a DEEP clone (the grammar rebuilt with every node's concrete combinator replaced by its own .clone(), so every combinator's hand-written Clone impl is on the path), and Cache::get() at a fresh lifetime per step where the input text is written into ONE reused buffer (same address for every step). Per (grammar, pool): all 3^3 (quick) / 3^4 (thorough) input orders with handle and mode cycling, plus random histories of 6 steps. Oracle: the result of every step (has_output, output, every error with span / found / expected / message, and the Inspector state) equals the result a FRESH parser built from the same grammar gives on that input. Threads: every Send + Sync catalogue parser behind one Arc<dyn Parser + Send + Sync>, and a Cache shared by reference, used by 2, 4 and 8 threads that each run a generated list of (input, parse|check) 50 (quick) / 400 (thorough) times behind a start barrier; every result must equal the sequential one (real threads: the schedule is the OS's, sampled not enumerated). Configurable parsers configured through a reference ((&just).configure, (&repeated).configure) against by-value use, parse / check / value-free positions, on every string over {a b} up to length 6 / 8. NON-TRIVIAL = a failing or recovering parse precedes a succeeding one on the same handle, or two different handles are interleaved on the same input; distinct by (grammar, pool, history).";
+pub const RULE: &str = "cases = (grammar, pool of 3 inputs, history). Grammars: C01/C02/C08/C11 classes (recovery, validate emitters, memoized, recursive, internal Box/Rc/Arc/Either/boxed wrappers) built by the dynamic builder, plus a hand-written catalogue of statically typed parsers (text::*, regex, pratt, memoized, recovery, labelled). Pool: 3 of 6 generated inputs, chosen to mix accepted, rejected and recovered ones. A history is a list of steps (handle, input, parse|check); handles are derived ONCE from one parser value and kept for the whole history: the original, p.clone(), &p, Box::new, Rc::new, Arc::new, .boxed(), .boxed().boxed(), Either::Left, Either::Right, a DEEP clone (the grammar rebuilt with every node's concrete combinator replaced by its own .clone(), so every combinator's hand-written Clone impl is on the path), and Cache::get() at a fresh lifetime per step where the input text is written into ONE reused buffer (same address for every step). Per (grammar, pool): all 3^3 (quick) / 3^4 (thorough) input orders with handle and mode cycling, plus random histories of 6 steps. Oracle: the result of every step (has_output, output, every error with span / found / expected / message, and the Inspector state) equals the result a FRESH parser built from the same grammar gives on that input. Threads: every Send + Sync catalogue parser behind one Arc<dyn Parser + Send + Sync>, and a Cache shared by reference, used by 2, 4 and 8 threads that each run a generated list of (input, parse|check) 50 (quick) / 400 (thorough) times behind a start barrier; every result must equal the sequential one (real threads: the schedule is the OS's, sampled not enumerated). Configurable parsers configured through a reference ((&just).configure, (&repeated).configure) against by-value use, parse / check / value-free positions, on every string over {a b} up to length 6 / 8. One inner parser held bare, as &p, Box, Rc, Arc, boxed(), boxed().boxed(), Either::Left / Right and clone() INSIDE five grammar shapes on every string over 8 symbols up to length 3 / 4: identical outputs and errors (reason, span, contexts), parse and check. NON-TRIVIAL = a failing or recovering parse precedes a succeeding one on the same handle, or two different handles are interleaved on the same input; distinct by (grammar, pool, history).";
 
 pub const ASSUMPTIONS: &[&str] = &[
     "a parser freshly built from the same grammar is the model (C01..C12 tie it to the reference semantics)",
